@@ -330,6 +330,9 @@ def r3_buffer(prog, rep: Report, csvr: Cls):
             sources.append(val)          # (a freshly constructed writer, alone or wrapped in a record with its buffer, is no cache read)
     stores = [t for t, val, st in all_stores if isinstance(val, ast.Name) and val.id in wnames and not isinstance(t, ast.Name)]
     def _keyed(e):
+        if isinstance(e, ast.Call) and isinstance(e.func, ast.Attribute) and e.func.attr == "get" and e.args \
+                and isinstance(e.args[0], ast.Name) and e.args[0].id == "cls":
+            return True                                         # cls._writer.get(cls)
         return isinstance(e, ast.Subscript) and isinstance(e.slice, ast.Name) and e.slice.id == "cls"
     keyed = bool(wvar) and all(_keyed(x) for x in sources) and all(_keyed(x) for x in stores) and (bool(sources) or bool(stores))
     rep.check("C13.R3", wf, "writer-cache", keyed, "writer cache keyed by cls", "the writer cache is not keyed by the record class",
